@@ -77,6 +77,12 @@ def check(run):
     run.bounded.append({"what": "python remove_innovation called directly: exact boundary (m=2,k=1.5: bound 5), non-identity S^-1, disabled, and a 9 x 7 grid of (k, m) with NIS at the IEEE bound fl(k*sqrt(2m)+m) and one ulp either side", "bound": "7 + 189 calls", "failures": len(bat), "counted_as_proved": False})
     for p in bat[:1]:
         run.findings.append(Finding("C06.py.remove_innovation.native_boundary_battery", "boundary", p, {"language": "python", "inputs": {"shape": [2, 0, 1, 2], "seed": run.seed, "extra_scenario": True}, "oracle_verdict": bat[:5]}, True))
+    # a sensor whose components live at very different scales (S positive definite, condition number 1e18): the full inverse decides
+    run.native_runs += 1
+    dsp = kalman.native_disparate_scales(run.seed)
+    run.bounded.append({"what": "python sensor_model of a two-reading sensor with S = diag(2e12, 2e-6): outlier in either component discarded (estimate untouched), a one-sigma reading accepted", "bound": "3 updates", "failures": len(dsp), "counted_as_proved": False})
+    for p in dsp[:1]:
+        run.findings.append(Finding("C06.py.native_disparate_scales", "scales", p, {"language": "python", "inputs": {"disparate_scales": True, "seed": run.seed}, "oracle_verdict": dsp[:3]}, True))
     try:
         from checks import cxx_innovation
 
@@ -95,6 +101,10 @@ def check(run):
 
 def replay_file(payload):
     inp = payload["inputs"]
+    if inp.get("disparate_scales"):
+        p = kalman.native_disparate_scales(inp.get("seed", 0))
+        print("replay C06 (components at scales 1e12 and 1e-6):", p[:3] or "decisions as the property states")
+        return not p
     if inp.get("sequence"):
         from checks.ekf_common import replay_sequence
 
